@@ -104,10 +104,10 @@ type Machine struct {
 	ex *Explorer
 	ps *pathState
 
-	stubs   map[string]*ssa.Function
-	methodC map[methodKey]*ssa.Function
+	stubs        map[string]*ssa.Function
+	methodC      map[methodKey]*ssa.Function
 	funcsEncoded map[*ssa.Function]int64
-	typeIDs map[string]types.Type
+	typeIDs      map[string]types.Type
 
 	errTypeErrorString types.Type
 	initDepth          int
@@ -115,9 +115,10 @@ type Machine struct {
 	trace              bool
 	forceNext          *Thread
 	wantYield          string
-	pending            [][]Decision
+	pending            []workItem
 	rtypes             map[string]*Obj
 	poisonLog          map[string]string
+	cacheHits          int64
 	pushedFrame        bool
 	curDest            ssa.Value
 	intrinsicIsDefer   bool
